@@ -10,7 +10,7 @@ import (
 var HoleDocLens = []int{560, 150, 520, 150}
 
 // NumPrefixes must equal len(vPrefixes) in harness/core/zz_verif_prefixes.go.
-const NumPrefixes = 64
+const NumPrefixes = 74
 
 const contractLoc = "jerr.NewLocation replaced by its contract (panics iff the file is nil; returns File/Index unchanged; Line, Column, Quote opaque) — the contract itself is decided on the real code by the location-contract jobs (C07, also run inside C01)"
 const contractRune = "bytes.Bytes.DecodeRune (used only to render the offending character into error text) evaluated on the concrete witness; error message text after the constant prefix is outside the claim"
@@ -105,6 +105,7 @@ func propC01(c *Ctx) int {
 		fmt.Sprintf("bounds: root file of <= %d arbitrary bytes; %d arbitrary bytes after each of %d witness prefixes (harness/core/zz_verif_prefixes.go); macro graphs <= 3 macros; include graphs <= 3 files + root; per-path budget 3e6 SSA steps / call depth 400 (exceeding it = candidate hang / runaway recursion, replayed natively in a subprocess)", maxN, k, NumPrefixes-1),
 		"file system = virtual (os.Stat, os.ReadFile, reader.Read modelled; absent => ErrNotExist; directory => error)",
 		"jsight-schema-core (schema scanner/compiler) is executed symbolically from its own SSA; regexp, time.Parse, net/mail, reggen, json.Unmarshal run natively on concrete operands and are an explicit drop on symbolic ones",
+		"the location contract is discharged for contents <= 4 bytes at every index and for long lines (198..203 / 320 bytes, 30 boundary indices; HLocationLong)",
 		contractLoc, contractRune,
 	}, map[string]interface{}{})
 }
@@ -117,6 +118,8 @@ func locationContractJobs(c *Ctx, n int) {
 				Params: map[string]int64{"n": int64(k), "conv": int64(conv)}, PanicIsViolation: true, MaxPaths: 2000000, Timeout: 30 * time.Minute})
 		}
 	}
+	// lines around and above the 200-byte quote limit (the loc contract stub of the build harnesses relies on this too)
+	c.RunJob(Job{Name: "location long lines", Pkg: "jerr", Fn: "HLocationLong", PanicIsViolation: true, MaxPaths: 100000, Timeout: 20 * time.Minute, MustReach: []string{"inside", "beyond-end"}})
 }
 
 func propC07(c *Ctx) int {
@@ -125,23 +128,26 @@ func propC07(c *Ctx) int {
 		n = 8
 	}
 	locationContractJobs(c, n)
-	for v := int64(0); v <= 1; v++ {
+	for v := int64(0); v <= 4; v++ {
 		c.RunJob(Job{Name: fmt.Sprintf("include trace variant=%d", v), Pkg: "core", Fn: "HIncludeTrace", Params: map[string]int64{"variant": v},
 			Stubs: []string{"rune"}, PanicIsViolation: true, MaxPaths: 100000, Timeout: 30 * time.Minute, MustReach: []string{"trace"}})
 	}
 	// errors inside schema bodies: located at the invalid byte, in the file that holds the body
-	c.RunJob(Job{Name: "body error location", Pkg: "core", Fn: "HBodyError", Stubs: []string{"rune"}, PanicIsViolation: true, MaxPaths: 100000, Timeout: 30 * time.Minute,
-		MaxSteps: 8000000, MaxDepth: 1000, MustReach: []string{"body-error-located"}})
+	for mode := int64(0); mode <= 1; mode++ {
+		c.RunJob(Job{Name: fmt.Sprintf("body error location mode=%d", mode), Pkg: "core", Fn: "HBodyError", Params: map[string]int64{"mode": mode}, Stubs: []string{"rune"}, PanicIsViolation: true, MaxPaths: 100000, Timeout: 30 * time.Minute,
+			MaxSteps: 8000000, MaxDepth: 1000, MustReach: []string{"body-error-located"}})
+	}
 	// every error of the build: file in the project, index inside the file (rides on the C01 harnesses)
 	for _, pre := range []int64{0, 9, 18, 27, 45, 46, 48, 56, 58} {
 		c.RunJob(Job{Name: fmt.Sprintf("error location prefix#%d +2B", pre), Pkg: "core", Fn: "HBuild", Params: map[string]int64{"n": 2, "pre": pre},
 			Stubs: []string{"rune"}, PanicIsViolation: false, MaxPaths: 2000000, Timeout: 30 * time.Minute, AllowDrops: []string{"on symbolic operand"}})
 	}
 	return c.Finish("model_checking", []string{
-		"errors inside schema bodies (HBodyError): an invalid byte (symbolic choice of byte and property) in the body of TYPE / Query / Headers / Path / Request / response / Params / Result / Body — directive kind and placement (root, INCLUDEd file, pasted MACRO body) symbolic — is reported in the file that holds the body at the index of that byte with its line, column and quote",
-		"include trace: root.jst with two INCLUDEs (targets symbolic over {a,b}), a and b include c at different lines; error raised in c during scanning (live stack) and after scanning (directive include tracer): the rendered trace must be [error file:line, includer:line of its INCLUDE, root:line of the INCLUDE followed]",
+		"errors inside schema bodies (HBodyError): an invalid byte (symbolic choice of byte and property) in the body of TYPE / Query / Headers / Path / Request / response / Params / Result / Body — directive kind and placement (root, INCLUDEd file, pasted MACRO body) symbolic — is reported in the file that holds the body at the index of that byte with its line, column and quote; mode 1: the same with a well-formed body that references an undefined type (error raised when the catalog is compiled: index = the reference; for Path, whose checks run after all bodies, the Path keyword)",
+		"long lines (HLocationLong): first line of 198..203 / 320 bytes with 2+2 arbitrary bytes, index symbolic over 30 boundary positions (file start, byte 100, the 197/200-byte cut, line end, file end and past it): no panic, exact line/column, quote = the line cut to 197 bytes + \"...\" above 200 bytes",
+		"include trace: root.jst with two INCLUDEs (targets symbolic over {a,b}), a and b include c at different lines; error raised in c during scanning (live stack) and after scanning (directive include tracer); variant 2: failing root directive right before an INCLUDE (no trace); variants 3/4: failing directive that FOLLOWS a nested INCLUDE inside the included file, scan-time and compile-time (the nested file must be gone from the trace): the rendered trace must be [error file:line, includer:line of its INCLUDE, root:line of the INCLUDE followed]",
 		"error location of the whole build: 2 arbitrary bytes after 9 witness prefixes with the REAL NewLocation (no contract stub): File inside the project, Index <= len(File)",
-		fmt.Sprintf("bound: file content <= %d arbitrary bytes, every index 0..len+2, one of three line-ending conventions (LF only / CRLF only / CR only); lines longer than 200 bytes (truncated quote) are outside the bound", n),
+		fmt.Sprintf("bound: file content <= %d arbitrary bytes, every index 0..len+2, one of three line-ending conventions (LF only / CRLF only / CR only); lines longer than 200 bytes only through HLocationLong", n),
 		"reference line/column/quote computed in the harness (harness/jerr/zz_verif_c07.go): line = 1 + terminators before the index, column = bytes since the line start + 1, quote = the line without terminator, leading blanks dropped",
 	}, map[string]interface{}{})
 }
@@ -403,7 +409,15 @@ func propC08(c *Ctx) int {
 		j.Stubs = nil
 		c.RunJob(j)
 	}
+	{
+		j := base
+		j.Name, j.Fn, j.Params = "layout before a body", "HLayoutBody", nil
+		j.Stubs = []string{"rune"}
+		j.MustReach = []string{"body-layout-compared"}
+		c.RunJob(j)
+	}
 	return c.Finish("model_checking", []string{
+		"between a keyword line and its body (HLayoutBody): 11 body-carrying directives (TYPE, Query, Headers, Path, Request, response, Params, Result, Body x2, ENUM) x placement (root / pasted MACRO) x 6 rewrites (explicit ( ) around the body; '#' line comment; one-line ### block; multi-line ### block with a blank line; blank + whitespace-only lines; ( ) plus block comment), all symbolic choices; for TYPE and Body a comment before the body is a schema comment (part of the body text, not of the schema) and is discounted from the digest",
 		"relational: 5 skeleton projects (3 accepted incl. MACRO/PASTE/INCLUDE/regex/enum/descriptions/explicit contexts; 2 rule-rejected) built twice, skeleton vs rewrite; equal catalog digest (every entity, order, names, annotations, descriptions, schema text without blanks) or same error class with the error index moved by the inserted length",
 		fmt.Sprintf("rewrites: LF->CRLF, LF->CR, uniform indentation by 1..2(3) symbolic blanks, a symbolic trailing blank on every line; %d symbolic trivia bytes (blank line / '#' comment line / trailing blanks / trailing comment) at every %s legal site (sites = positions outside bodies, description texts and annotations, found by scanning the skeleton)", k, map[bool]string{true: "", false: "3rd (seed-rotated)"}[thorough]),
 		"quoting a bare parameter (content symbolic), // vs /* */ annotation (content symbolic), Description text: line-ending convention, uniform indent and ( ) wrapping over symbolic lines",
@@ -553,7 +567,7 @@ func propC02(c *Ctx) int {
 	thorough := c.Tier == "thorough"
 	base := Job{Pkg: "core", Fn: "HModel", Stubs: []string{"loc", "rune"}, PanicIsViolation: true, MaxPaths: 200000, Timeout: time.Hour, MaxSteps: 8000000, MaxDepth: 1000, Quiet: true}
 	rng := rand.New(rand.NewSource(c.Seed + 2))
-	jobs1, jobs2, bits1, bits2 := 6, 8, 8, 7
+	jobs1, jobs2, bits1, bits2 := 5, 6, 7, 6
 	if thorough {
 		jobs1, jobs2, bits1, bits2 = 30, 50, 10, 9
 	}
@@ -570,7 +584,7 @@ func propC02(c *Ctx) int {
 		reached += jr.Stats.Reached["model-roundtrip"]
 	}
 	// feature groups: semantically related features symbolic together (two seeded settings of the rest each)
-	for g := int64(1); g <= 7; g++ {
+	for g := int64(1); g <= 8; g++ {
 		reps := 1
 		if thorough {
 			reps = 6
@@ -595,7 +609,7 @@ func propC02(c *Ctx) int {
 	c.Log("model round-trips reached: %d", reached)
 	return c.Finish("model_checking", []string{
 		"abstract model (harness/core/zz_verif_c02.go): INFO (title, version, description), up to two SERVERs, TAGs, TYPEs (jsight and regex), ENUMs, an optional JSON-RPC method (Params / Result / Description / Tags variants), 1..2 HTTP interactions (all five methods x path pool, request with Headers and Body in either order, response bodies any / @type / [@type] / inline schema, own Tags / URL-level Tags / path tag, annotation, description, query, request none/any/schema/headers+body, OperationId, Tags or path tag, 1..2 responses in either order with any/@type/inline schema bodies, response headers and annotations), rendered with URL grouping or stand-alone methods, explicit ( ) or implicit contexts, // or /* */ annotations",
-		fmt.Sprintf("7 feature groups (tags: declared tags x own/URL-level Tags x grouping x paths; entities; responses; request/description; grouping/explicit contexts; second interaction; JSON-RPC x tags) are made symbolic together with seeded settings of the rest; in addition each mask job makes %d (1 interaction) / %d (2 interactions) of the ~37/59 feature choices symbolic (seeded selection, the solver explores all their combinations) and fixes the rest (seeded); %d+%d jobs this run; the expected catalog digest is computed from the model alone and compared entry by entry (nothing missing, nothing invented, order, attachment to the right interaction/response), followed by the C05 closure invariants", bits1, bits2, jobs1, jobs2),
+		fmt.Sprintf("8 feature groups (tags: declared tags x own (one or two, either order) / URL-level Tags x grouping x paths; entities; responses; request/description/query (none, body, noFormat, example, example+noFormat, htmlFormEncoded); grouping/explicit contexts; second interaction; JSON-RPC x tags; method x path x query x enums) are made symbolic together with seeded settings of the rest; in addition each mask job makes %d (1 interaction) / %d (2 interactions) of the ~37/59 feature choices symbolic (seeded selection, the solver explores all their combinations) and fixes the rest (seeded); %d+%d jobs this run; the expected catalog digest — including, for every schema and enum, the content tree / rules / notes / used types that the JSON emitter hands to encoding/json (vDigestDeep) — is computed from the model alone and compared entry by entry (nothing missing, nothing invented, order, attachment to the right interaction/response), followed by the C05 closure invariants", bits1, bits2, jobs1, jobs2),
 		"outside: JSON emission (encoding/json), more than two HTTP interactions + one JSON-RPC method, combinations of more feature choices than the symbolic ones of a job, MACRO/PASTE and INCLUDE renderings (covered relationally by C10/C09), layout variants (C08)",
 		contractLoc, contractRune,
 	}, map[string]interface{}{"model_roundtrips": reached})
